@@ -1,4 +1,5 @@
 """C02 - Optimal exactly when a feasible matching exists; never errors."""
+import os
 import random
 
 from .. import harness, lpchecks, shapes, e1, e2, spec, replay as rp
@@ -78,7 +79,62 @@ def tasks(tier, seed):
             seq = seq[:1] if lpchecks.admissible(I, seq[:1]) else []
         out.append({'kind': 'tv', 'shape': lpchecks.shape_data(I), 'num': [plq, puq, llq, lt, luq], 'flags': flags, 'seq': seq,
                     'argv_seq': lpchecks.gapped_argv(seq, rng), 'forms': ['tv']})
+    # the repository's own evaluation corpus (recorded 2020 results) through the real pipeline + translation validation
+    import os
+    from .. import repo as _repo
+    corpus = {('hr', 'genmax'): (2, ['twopl'], ['-maxsize', '1', '-gen', '2']), ('hr', 'gremax'): (2, ['twopl'], ['-maxsize', '1', '-gre', '2']),
+              ('hr', 'gre_pc'): (2, ['twopl', 'pc'], ['-gre', '1']), ('spa', 'genmax'): (3, ['twopl'], ['-maxsize', '1', '-gen', '2']),
+              ('spa', 'gremax'): (3, ['twopl'], ['-maxsize', '1', '-gre', '2']), ('spa_no_lq', 'stable'): (3, ['twopl', 'stab'], []),
+              ('spa_onesided', 'genmax'): (3, [], ['-maxsize', '1', '-gen', '2'])}
+    for (d, mode), (na, flags, av) in corpus.items():
+        for i in range(5 if tier == 'thorough' else 2):
+            inst = os.path.join(_repo.REPO, 'Evaluations', d, 'instances', '%d.txt' % i)
+            rec = os.path.join(_repo.REPO, 'Evaluations', d, mode, '%d.txt' % i)
+            if os.path.exists(inst) and os.path.exists(rec):
+                out.append({'kind': 'corpus', 'inst': inst, 'rec': rec, 'na': na, 'flags': flags, 'argv_seq': av, 'forms': ['corpus'],
+                            'shape': {'ns': 6, 'np': 8, 'nl': 4, 'prefs': []}, 'seq': []})
     return out
+
+
+def corpus_task(task):
+    import re
+    res = {'obligations': 0, 'discharged': 0, 'unknown': 0, 'cex': [], 'queries': 0, 'solver_time': 0.0,
+           'paths': 1, 'nontrivial': 1, 'controls': {}}
+    text = open(task['inst']).read()
+    I = spec.parse_text(text, task['na'], 'twopl' in task['flags'] or True if _has_second(text, task['na']) else False)
+    real = e1.run_real(I, task['flags'], task['argv_seq'])
+    sh = e1.run_shim(I, task['flags'], task['argv_seq'])
+    if real['exc'] or sh['exc']:
+        raise RuntimeError('corpus run failed: %r / %r' % (real['exc'], sh['exc']))
+    d = e1.diff(real['problems'], sh['problems'])
+    if d is not None:
+        raise RuntimeError('translation validation (corpus %s): %s' % (task['inst'], d))
+    res['controls']['must_tv_agree'] = 1
+    res['controls']['corpus_instances'] = 1
+    rec = open(task['rec']).read()
+    m1 = re.search(r'^profile: < (.*)>$', rec, re.M)
+    m2 = re.search(r'^profile: < (.*)>$', real['text'], re.M)
+    res['obligations'] += 1
+    if 'stab' in task['flags']:
+        ok = 'pulp_status: Optimal' in real['text'] and 'stability_correct: True' in real['text']
+    else:
+        ok = bool(m1 and m2 and m1.group(1).split() == m2.group(1).split())
+    if ok:
+        res['discharged'] += 1
+    else:
+        res['cex'].append({'tag': 'corpus/%s' % os.path.basename(os.path.dirname(task['rec'])), 'form': 'corpus',
+                           'what': 'recorded result of the evaluation corpus not reproduced: recorded profile %s, now %s' % (m1 and m1.group(1), m2 and m2.group(1)),
+                           'data': {k: task[k] for k in ('inst', 'rec', 'na', 'flags', 'argv_seq')}})
+    res['sample'] = {'corpus': task['inst'], 'argv': task['argv_seq'], 'profile': m2 and m2.group(1)}
+    return res
+
+
+def _has_second(text, na):
+    lines = text.split('\n')
+    ns = int(lines[0].split()[0])
+    np_ = int(lines[0].split()[1])
+    row = lines[ns + np_ + 1] if na == 3 else lines[ns + 1]
+    return len([x for x in row.split(':')[-1].split()]) > 0 and len(row.split(':')) >= (5 if na == 3 else 4)
 
 
 def tv_task(task):
@@ -135,10 +191,27 @@ def judge(I, flags, seq, out):
 def run_task(task):
     if task.get('kind') == 'tv':
         return tv_task(task)
+    if task.get('kind') == 'corpus':
+        return corpus_task(task)
     return lpchecks.analyse(task)
 
 
 def replay(cex):
+    if cex.get('form') == 'corpus':
+        import re
+        d = cex['data']
+        text = open(d['inst']).read()
+        I = spec.parse_text(text, d['na'], _has_second(text, d['na']))
+        out = rp.real_solve(I, set(d['flags']), d['argv_seq'])
+        rec = open(d['rec']).read()
+        m1 = re.search(r'^profile: < (.*)>$', rec, re.M)
+        got = out['parsed']['profile'] if out.get('parsed') else None
+        want = [int(t) for t in m1.group(1).split()] if m1 else None
+        if 'stab' in d['flags']:
+            bad = not (out.get('parsed') and out['parsed']['status'] == 'Optimal' and out['parsed']['stability_correct'] == 'True')
+        else:
+            bad = got != want
+        return bad, 'real PuLP + CBC on %s %s: profile %s, recorded %s' % (d['inst'], d['argv_seq'], got, want)
     if cex.get('form') == 'e1':
         d = cex['data']
         I = lpchecks.shape_from(d['shape']).with_numerics(*d['num'])
